@@ -8,6 +8,8 @@ import (
 	"sort"
 	"strings"
 
+	"golang.org/x/tools/go/cfg"
+
 	"siotcheck/kit"
 )
 
@@ -56,8 +58,23 @@ type mbQuantity struct {
 	region ast.Node  // the arm's clause, or the body of fn
 	obj    types.Object
 	def    *ast.AssignStmt
-	lhs    ast.Expr   // the identifier assigned in def
-	uses   []ast.Node // CFG nodes of the region that use the quantity other than comparing it with constants
+	lhs    ast.Expr // the identifier assigned in def
+	uses   []mbUse  // CFG nodes of the region that use the quantity other than as the operand of a guard comparison
+}
+
+// mbUse is a CFG node that uses the quantity.  occ lists, per occurrence, the
+// short-circuit context (`a || b`: b is evaluated with a false) under which
+// the occurrence is evaluated; stop is set when some occurrence is evaluated
+// unconditionally (merely executing the node then means "the value reached a use").
+type mbUse struct {
+	node ast.Node
+	occ  [][]mbGuard
+	stop bool
+}
+
+type mbGuard struct {
+	cond ast.Expr
+	val  bool
 }
 
 // mbRegion is a piece of code that serves an arm: the arm's clause, or the
@@ -94,6 +111,13 @@ func (m *mbModel) readsWord(f *kit.Func, e ast.Expr, lo, hi int64) bool {
 	info := f.Info()
 	call, ok := ast.Unparen(e).(*ast.CallExpr)
 	if !ok || len(call.Args) != 1 {
+		return false
+	}
+	// a widening integer conversion around the read does not change the value
+	if tv, isT := info.Types[call.Fun]; isT && tv.IsType() {
+		if bt := mbBasicInt(tv.Type); bt != nil && (bt.Kind() == types.Int || bt.Kind() == types.Int32 || bt.Kind() == types.Int64 || bt.Kind() == types.Uint || bt.Kind() == types.Uint32 || bt.Kind() == types.Uint64 || bt.Kind() == types.Uint16) {
+			return m.readsWord(f, call.Args[0], lo, hi)
+		}
 		return false
 	}
 	name, order, _, isBO := kit.ByteOrderCall(info, call)
@@ -204,59 +228,61 @@ func (m *mbModel) quantityOf(arm *mbArm) *mbQuantity {
 			if n.Pos() < q.region.Pos() || n.End() > q.region.End() || n == ast.Node(q.def) {
 				continue
 			}
-			uses, onlyConstCmp := m.usesOf(q.fn, n, q.obj)
-			if !uses {
-				continue
-			}
 			isCond := i == len(blk.Nodes)-1 && len(blk.Succs) == 2 && (br.Kind == kit.BrCond || br.Kind == kit.BrCase)
-			if isCond && onlyConstCmp {
-				continue // the guard itself
+			isLoop := isCond && blk.Kind == cfg.KindForLoop
+			occ := m.usesOf(q.fn, n, q.obj, isCond && !isLoop)
+			if len(occ) == 0 {
+				continue // not mentioned, or only as the operand of guard comparisons
 			}
-			q.uses = append(q.uses, n)
+			u := mbUse{node: n, occ: occ}
+			for _, g := range occ {
+				if len(g) == 0 {
+					u.stop = true
+				}
+			}
+			q.uses = append(q.uses, u)
 		}
 	}
 	return q
 }
 
-// usesOf reports whether n mentions the variable and whether every mention
-// is a comparison with a constant (through integer conversions).
-func (m *mbModel) usesOf(f *kit.Func, n ast.Node, o types.Object) (uses, onlyConstCmp bool) {
+// usesOf lists the occurrences of the variable in n that are uses: every
+// occurrence except, in a branch condition (guardCond), the direct operand
+// (through parentheses and integer conversions) of a relational comparison —
+// comparing the quantity is how it is guarded, not a use of it.  Each
+// occurrence comes with its short-circuit context.
+func (m *mbModel) usesOf(f *kit.Func, n ast.Node, o types.Object, guardCond bool) [][]mbGuard {
 	info := f.Info()
-	onlyConstCmp = true
-	var visit func(x ast.Node, cmpConst bool)
-	visit = func(x ast.Node, cmpConst bool) {
+	var out [][]mbGuard
+	var visit func(x ast.Node, cmpOperand bool, ctx []mbGuard)
+	visit = func(x ast.Node, cmpOperand bool, ctx []mbGuard) {
 		switch y := x.(type) {
 		case nil:
 			return
 		case *ast.FuncLit:
 			return
 		case *ast.Ident:
-			if kit.ObjOf(info, y) == o {
-				uses = true
-				if !cmpConst {
-					onlyConstCmp = false
-				}
+			if kit.ObjOf(info, y) == o && !(cmpOperand && guardCond) {
+				out = append(out, append([]mbGuard(nil), ctx...))
 			}
 			return
 		case *ast.ParenExpr:
-			visit(y.X, cmpConst)
+			visit(y.X, cmpOperand, ctx)
 			return
 		case *ast.CallExpr:
 			if tv, ok := info.Types[y.Fun]; ok && tv.IsType() && len(y.Args) == 1 {
-				visit(y.Args[0], cmpConst)
+				visit(y.Args[0], cmpOperand, ctx)
 				return
 			}
 		case *ast.BinaryExpr:
 			switch y.Op {
 			case token.EQL, token.NEQ, token.LSS, token.LEQ, token.GTR, token.GEQ:
-				_, c1 := kit.ConstInt(info, y.X)
-				_, c2 := kit.ConstInt(info, y.Y)
-				visit(y.X, c2)
-				visit(y.Y, c1)
+				visit(y.X, true, ctx)
+				visit(y.Y, true, ctx)
 				return
 			case token.LAND, token.LOR:
-				visit(y.X, false)
-				visit(y.Y, false)
+				visit(y.X, false, ctx)
+				visit(y.Y, false, append(append([]mbGuard(nil), ctx...), mbGuard{y.X, y.Op == token.LAND}))
 				return
 			}
 		}
@@ -267,13 +293,53 @@ func (m *mbModel) usesOf(f *kit.Func, n ast.Node, o types.Object) (uses, onlyCon
 				return true
 			}
 			if ch != nil {
-				visit(ch, false)
+				visit(ch, false, ctx)
 			}
 			return false
 		})
 	}
-	visit(n, false)
-	return
+	visit(n, false, nil)
+	return out
+}
+
+// ctxBounds returns the facts analysis of fn in the context in which the
+// arm reaches it (fn is the processor itself, or a module function called
+// from the arm, possibly through another one).
+func (m *mbModel) ctxBounds(arm *mbArm, fn *kit.Func) *kit.Bounds {
+	root := kit.AnalyseBounds(m.c.P, m.Req)
+	if fn == m.Req {
+		return root
+	}
+	var search func(b *kit.Bounds, within ast.Node, depth int) *kit.Bounds
+	search = func(b *kit.Bounds, within ast.Node, depth int) *kit.Bounds {
+		if depth > 3 {
+			return nil
+		}
+		for _, call := range b.ModuleCalls() {
+			if within != nil && (call.Pos() < within.Pos() || call.End() > within.End()) {
+				continue
+			}
+			cf := b.F.CalleeFunc(call)
+			if cf == nil || cf == m.Mapper {
+				continue
+			}
+			sub := b.CalleeAt(call)
+			if sub == nil {
+				continue
+			}
+			if cf == fn {
+				return sub
+			}
+			if r := search(sub, nil, depth+1); r != nil {
+				return r
+			}
+		}
+		return nil
+	}
+	if b := search(root, arm.Clause, 0); b != nil {
+		return b
+	}
+	return kit.AnalyseBounds(m.c.P, fn)
 }
 
 func c18R1(c *kit.Ctx, m *mbModel) {
@@ -309,31 +375,40 @@ func c18R1(c *kit.Ctx, m *mbModel) {
 			o.Undecided("the quantity %s is never used in %s", q.obj.Name(), arm.label())
 			continue
 		}
+		// executing a node with an unconditional occurrence means the value reached a use
 		useSet := map[ast.Node]bool{}
 		for _, u := range q.uses {
-			useSet[u] = true
+			if u.stop {
+				useSet[u.node] = true
+			}
 		}
-		bnd := kit.AnalyseBounds(c.P, q.fn)
+		bnd := m.ctxBounds(arm, q.fn)
 		c.Analysed(q.fn)
 		qt := bnd.Term(q.lhs)
-		// (a) interval at every use
+		// (a) interval at every use occurrence (with its short-circuit context)
 		var wide []string
 		hull := kit.Iv{Lo: 1 << 40, Hi: -1}
 		for _, u := range q.uses {
-			fs, _ := bnd.FactsBefore(u)
+			fs, _ := bnd.FactsBefore(u.node)
 			if fs == nil || qt == nil {
-				wide = append(wide, q.fn.At(u)+" (no facts)")
+				wide = append(wide, q.fn.At(u.node)+" (no facts)")
 				continue
 			}
-			iv := bnd.EnvAt(fs, nil).IvTerm(qt)
-			if iv.Lo < hull.Lo {
-				hull.Lo = iv.Lo
-			}
-			if iv.Hi > hull.Hi {
-				hull.Hi = iv.Hi
-			}
-			if iv.Lo < 1 || iv.Hi > limit {
-				wide = append(wide, fmt.Sprintf("%s `%s` sees %s ∈ %s", q.fn.At(u), trunc(q.fn.Str(u), 50), q.obj.Name(), iv))
+			for _, gs := range u.occ {
+				var extra []*kit.BFact
+				for _, g := range gs {
+					extra = append(extra, bnd.CondFacts(fs, g.cond, g.val)...)
+				}
+				iv := bnd.EnvAt(fs, extra).IvTerm(qt)
+				if iv.Lo < hull.Lo {
+					hull.Lo = iv.Lo
+				}
+				if iv.Hi > hull.Hi {
+					hull.Hi = iv.Hi
+				}
+				if iv.Lo < 1 || iv.Hi > limit {
+					wide = append(wide, fmt.Sprintf("%s `%s` sees %s ∈ %s", q.fn.At(u.node), trunc(q.fn.Str(u.node), 50), q.obj.Name(), iv))
+				}
 			}
 		}
 		run := func(code, v int64) *kit.IResult {
@@ -418,6 +493,12 @@ func c18R1(c *kit.Ctx, m *mbModel) {
 						reached = true
 					}
 				}
+				// … or goes on to access the registers
+				for _, e := range res.Exits {
+					if !e.Tainted && len(provEvents(e.Trace)) > 0 {
+						reached = true
+					}
+				}
 				if !reached {
 					if len(res.Unsupported) > 0 || res.Overflow {
 						o.Undecided("evaluation with quantity %d: %v", v, res.Unsupported)
@@ -479,6 +560,7 @@ func boundsRuleOpt(c *kit.Ctx, r *kit.Rule, fs []*kit.Func, label func(f *kit.Fu
 		b := kit.AnalyseBounds(c.P, f)
 		c.Analysed(f)
 		units := []ctxObs{{b: b}}
+		followed := map[*kit.Func]bool{}
 		if deep {
 			var walk func(cb *kit.Bounds, chain string, site ast.Node, depth int)
 			walk = func(cb *kit.Bounds, chain string, site ast.Node, depth int) {
@@ -503,8 +585,39 @@ func boundsRuleOpt(c *kit.Ctx, r *kit.Rule, fs []*kit.Func, label func(f *kit.Fu
 					units = append(units, ctxObs{b: sub, chain: ch, site: s0})
 					walk(sub, ch, s0, depth+1)
 				}
+				// literals the context binds to function-typed parameters, at their calls
+				for _, call := range cb.ClosureCalls() {
+					sub := cb.ClosureAt(call)
+					if sub == nil {
+						continue
+					}
+					followed[sub.F] = true
+					s0 := site
+					if s0 == nil {
+						s0 = call
+					}
+					ch := "literal " + sub.F.Name
+					if chain != "" {
+						ch += " ← " + chain
+					}
+					units = append(units, ctxObs{b: sub, chain: ch, site: s0})
+					walk(sub, ch, s0, depth+1)
+				}
 			}
 			walk(b, "", nil, 0)
+			// function literals with accesses of their own that no context reaches are not judged silently
+			for _, u := range append([]ctxObs(nil), units...) {
+				for _, lf := range c.P.Funcs(u.b.F.PkgRel()) {
+					if lf.Lit == nil || lf.Outer != u.b.F || followed[lf] {
+						continue
+					}
+					lb := kit.AnalyseBounds(c.P, lf)
+					if len(lb.Obs) > 0 {
+						followed[lf] = true
+						units = append(units, ctxObs{b: lb, chain: "literal " + lf.Name + " (context not followed)", site: lf.Lit})
+					}
+				}
+			}
 		}
 		unproved := 0
 		var want []ast.Node
@@ -898,7 +1011,7 @@ func (m *mbModel) pduFields(f *kit.Func, e ast.Expr, ret *ast.ReturnStmt) (fc, d
 // R4 no write on read, single write, guarded store
 
 func c18R4(c *kit.Ctx, m *mbModel) {
-	r := c.Rule("R4", "reads never write; a single write writes at most once; stores are guarded", 14)
+	r := c.Rule("R4", "reads never write; a single write writes at most once; stores are guarded", 10)
 	for _, arm := range m.Arms {
 		read, single := false, false
 		for _, code := range arm.Codes {
@@ -1095,7 +1208,7 @@ func (m *mbModel) checkSingleWrite(c *kit.Ctx, o *kit.Ob, arm *mbArm, code int64
 // R5 loops
 
 func c18R5(c *kit.Ctx, m *mbModel) {
-	r := c.Rule("R5", "loops of the request processor are counted loops over a 16-bit quantity", 8)
+	r := c.Rule("R5", "loops of the request processor are counted loops over a 16-bit quantity", 6)
 	// the processor and the module functions that serve its arms
 	fns := []*kit.Func{m.Req}
 	seenFn := map[*kit.Func]bool{m.Req: true}
